@@ -7,6 +7,90 @@ VERIF = os.path.dirname(os.path.dirname(os.path.abspath(__file__)))
 PY = '/venv/bin/python'
 
 CHECKS = {
+    'C10': dict(
+        level='other',
+        text='Decides BufrMessage.subset by folding it over a family of index collections (any order, repeats, single, full, out of range by one) on '
+             'an abstract 5-subset message: rows kept are those of the distinct selected indices in ascending order, the subset count equals their '
+             'number, every other parameter passes through unchanged, nothing reachable from the source message is written, out-of-range indices '
+             'are refused with the library error; plus the CLI wrapper, the coder-state mode (the data section is re-encoded in the mode the '
+             'unchanged compression flag declares) and the all-equal string column fold.',
+        note='Validity of the re-encoded bytes of a particular message is a runtime fact; re-compression of reduced columns is C05.',
+        technique='static analysis: constant folding of subset() over a finite family of index collections on an abstract message',
+        ref='3 C10'),
+    'C11': dict(
+        level='other',
+        text='Decides the stream scanner by folding generate_bufr_message over a scripted stream (real message starts, a start signature inside a '
+             'message body, damaged data, damaged header, a table-definition message, differing declared/decoded lengths) for {full, info-only} x '
+             '{filter, no filter} x {continue, stop}: the yielded sequence with its byte spans, the final exception and the table-definition side '
+             'effects must equal what the property prescribes; decoding is anchored at the found signature; one signature constant; command_split '
+             'writes the yielded bytes unmodified.',
+        note='The scripted decoder stands for Decoder.process (its span accounting is C04.R4, its error discipline C12). Boundaries found in a '
+             'particular byte string are a runtime fact.',
+        technique='static analysis: path-sensitive constant propagation of the scanner over a scripted stream model (typestate of info/full decodes)',
+        ref='3 C11'),
+    'C13': dict(
+        level='other',
+        text='Decides that the code has no channel through which history could act: the process-wide caches are written only by their owner\'s '
+             'designated methods; no descriptor field is stored outside construction / fresh copies (shared cached objects stay frozen); coders, '
+             'renderers and querents write nothing to themselves or to message objects after construction; the path parser re-initialises everything '
+             'it writes; wire() is guarded; cache keys are complete; the table-group cache is folded at and around its limit of 50 and the '
+             'compiled-template cache for sizes 0, 1, n; no function mutates module-level state; configuration transformers never write into the '
+             'shared layouts.',
+        note='Aliasing is tracked by the repository\'s naming conventions. Equality of results across histories is a runtime fact.',
+        technique='static analysis: who-may-write / effect-set rules over all functions, plus constant folding of the two caches at their limits',
+        ref='3 C13'),
+    'C14': dict(
+        level='other',
+        text='Decides template construction by folding tables._descriptors_from_ids_iter over a family of descriptor lists (nested fixed/delayed '
+             'replication up to X=63, sequences, operators, string ids, undefined descriptors, short lists) against abstract tables and comparing '
+             'the tree with a reference builder; flattening back (original_descriptor_ids, flat_member_ids) returns the list; both dispatchers '
+             'send an id to the same table at every threshold; unknown ids become Undefined* placeholders outside the dispatched classes; Table D '
+             'is loaded in two passes; normalize_tables_sn is folded over directory layouts for the fall-back rules.',
+        note='The contents of the bundled Table B / D files are data and are not decided.',
+        technique='static analysis: constant folding of the list builder and flatteners over a finite family of descriptor lists',
+        ref='3 C14'),
+    'C15': dict(
+        level='model_checking',
+        text='The transition relation of NodePathParser is extracted from its syntax tree on every run (one path-sensitive evaluation of the loop '
+             'body per parser state x token class x slice-element list x source-derived character class) and explored in product with a '
+             'reference recogniser of the documented grammar: language equality over strings of any length, only PathExprParsingError escapes, no '
+             'component is dropped, state of an earlier parse cannot leak (the prologue starts from a dirty parser object). create_slice_object is '
+             'folded against the grammar\'s slice semantics and parse -> print -> parse is folded over slice shapes.',
+        note='The reference restates docs/internals.rst plus two conventions pinned by the repository\'s own tests. The token abstraction {empty, "-", '
+             'integer, other} is exact for int() and emptiness tests. Thorough tier re-runs with every printable character as its own class.',
+        technique='static analysis: automaton extraction by path-sensitive constant propagation + product exploration against a reference automaton',
+        ref='3 C15'),
+    'C17': dict(
+        level='other',
+        text='Decides metadata expressions and metadata-only decoding: MetadataExprParser.parse folded over 28 expression shapes (result or '
+             'MetadataExprParsingError, nothing else); MetadataQuerent.query folded on a message without section 2 (first match in section order, '
+             'explicit index by the section\'s index metadata); info_configuration / ignore_value_expectation folded over every bundled layout '
+             '(truncate before the data section, end the message there, never modify the shared configuration); Decoder.process hands exactly the '
+             'requested transformers on; every message-level parameter the code reads is provided by the layouts of editions 2-4; info-only '
+             'scanning takes bytes from the declared length.',
+        note='Equality of metadata values between a full and a metadata-only decode of a particular message is a runtime fact.',
+        technique='static analysis: constant folding of the parser, the lookup and the configuration transformers over finite input families; layout/code agreement lint',
+        ref='3 C17'),
+    'C18': dict(
+        level='model_checking',
+        text='The transducer table of process_embedded_query_expr is extracted from its syntax tree on every run (5 states x 8 character classes x '
+             '9 look-aheads = 360 cases) and compared entry by entry with the reference transducer; variable naming (same trimmed expression -> '
+             'same name, consecutive numbering), the single indicator character shared by metadata_only and the dispatcher, the nest-level '
+             'relations (level 1 = concatenation of level 2, level 0 = its first element or None, level 4 unflattened) and pragma < argument '
+             'precedence are folded.',
+        note='Escape-free literals, as the property states. Query results and the exec/eval of the script are runtime facts.',
+        technique='static analysis: transducer extraction by path-sensitive constant propagation, exhaustive over the finite table',
+        ref='3 C18'),
+    'C20': dict(
+        level='other',
+        text='Decides extraction and plumbing of in-stream table definitions: BufrTableDefinitionProcessor folded on a scripted NCEP definition '
+             'message (all sign combinations of scale / reference, width, names, units, sequence membership, value consumption); invalidate keeps '
+             'earlier definitions, add_extra_entries merges b into B and d into D, new groups are built with them, they are read after the table '
+             'files so they override, the scanner registers them before yielding; NCEP replication-only sequences are repaired exactly when '
+             'definitions exist (folded on small trees incl. two nesting levels).',
+        note='Only the NCEP layout (the one the code asserts). That a data message then decodes according to the entries follows from C01.',
+        technique='static analysis: constant folding of the definition processor and the table-cache plumbing over scripted inputs',
+        ref='3 C20'),
     'C03': dict(
         level='other',
         text='Decides the structural necessary conditions of "never silently alters data": no wrapping/clipping operator (%, &, min, max, abs, '
